@@ -6,6 +6,7 @@ GenInit == /\ MCInit
                              stored |-> Mask(StoredOf(db)), sampled |-> Mask(SampledOf(db)),
                              pruned |-> Mask(PrunedOf(db)),
                              acc_present |-> IF KAcc \in DOMAIN db.rt THEN 1 ELSE 0,
+                             hdr_present |-> IF KHdr \in DOMAIN db.rt THEN 1 ELSE 0,
                              refused |-> IF Refused(db) THEN 1 ELSE 0,
                              post_ver |-> OpenDb(db).ver,
                              post_stored |-> Mask(StoredOf(OpenDb(db))),
